@@ -201,6 +201,104 @@ def runBlocking {α} (xs : List (Notif α)) : RunResult α :=
 
 end ToFuture
 
+/-! ## run(): the latch between the producer thread and the waiting thread
+
+`run()` subscribes (the source emits from ANOTHER thread, through the AutoDetachObserver) and then
+executes `while not done: latch.wait()`, after which it reads `exception`, `has_result`, `result`.
+Atomic steps (single bytecode-level reads/writes of the closure cells under the GIL, and the
+`threading.Event` operations): the producer's callbacks write `result`, `has_result` (on_next),
+`exception`, `done`, `latch.set()` (on_error), `done`, `latch.set()` (on_completed) in that
+program order; the waiter reads `done`, blocks in `latch.wait()` until the event is set
+(level-triggered), and then reads the three cells.  Any interleaving of the two threads is a list
+of choices `true` = the producer takes its next step, `false` = the waiter does (a blocked waiter's
+step is a no-op). -/
+namespace RunLatch
+open ToFuture (RunResult)
+
+inductive PStep (α : Type) where
+  | setResult (v : α)
+  | setHasResult
+  | setException (e : Err)
+  | setDone
+  | setLatch
+deriving Repr, DecidableEq
+
+/-- the producer thread's program for a raw call sequence: the AutoDetachObserver lets nothing
+through after the first terminal -/
+def compile {α} : List (Notif α) → List (PStep α)
+  | [] => []
+  | .next v :: r => .setResult v :: .setHasResult :: compile r
+  | .error e :: _ => [.setException e, .setDone, .setLatch]
+  | .completed :: _ => [.setDone, .setLatch]
+
+structure Shared (α : Type) where
+  result : Option α := none
+  hasResult : Bool := false
+  exception : Option Err := none
+  done : Bool := false
+  latch : Bool := false
+deriving Repr, DecidableEq
+
+def pstep {α} (sh : Shared α) : PStep α → Shared α
+  | .setResult v => { sh with result := some v }
+  | .setHasResult => { sh with hasResult := true }
+  | .setException e => { sh with exception := some e }
+  | .setDone => { sh with done := true }
+  | .setLatch => { sh with latch := true }
+
+/-- program counter of the waiting thread -/
+inductive WPc (α : Type) where
+  | checkDone                 -- `while not done`
+  | waiting                   -- inside `latch.wait()`
+  | readExc                   -- `if exception: raise`
+  | readHas                   -- `if not has_result: raise SequenceContainsNoElementsError`
+  | readRes                   -- `return result`
+  | finished (r : RunResult α)
+deriving Repr, DecidableEq
+
+structure Sys (α : Type) where
+  sh : Shared α := {}
+  rem : List (PStep α)
+  w : WPc α := .checkDone
+
+def outcome {α} (sh : Shared α) : RunResult α :=
+  match sh.exception with
+  | some e => .raises e
+  | none =>
+    if sh.hasResult then
+      match sh.result with
+      | some v => .returns v
+      | none => .raises noElements
+    else .raises noElements
+
+def wstep {α} (s : Sys α) : Sys α :=
+  match s.w with
+  | .checkDone => if s.sh.done then { s with w := .readExc } else { s with w := .waiting }
+  | .waiting => if s.sh.latch then { s with w := .checkDone } else s
+  | .readExc =>
+    match s.sh.exception with
+    | some e => { s with w := .finished (.raises e) }
+    | none => { s with w := .readHas }
+  | .readHas => if s.sh.hasResult then { s with w := .readRes } else { s with w := .finished (.raises noElements) }
+  | .readRes =>
+    match s.sh.result with
+    | some v => { s with w := .finished (.returns v) }
+    | none => { s with w := .finished (.raises noElements) }
+  | .finished _ => s
+
+def pstepSys {α} (s : Sys α) : Sys α :=
+  match s.rem with
+  | [] => s
+  | p :: r => { s with sh := pstep s.sh p, rem := r }
+
+def sysStep {α} (s : Sys α) (producer : Bool) : Sys α := if producer then pstepSys s else wstep s
+
+/-- run an interleaving -/
+def run {α} (xs : List (Notif α)) (sched : List Bool) : Sys α :=
+  sched.foldl sysStep { rem := compile xs }
+
+end RunLatch
+
 /-! ## to_async / start -/
 namespace ToAsync
 
